@@ -76,6 +76,18 @@ type failure struct {
 	RapidSeed uint64          `json:"rapid_seed"`
 	Case      json.RawMessage `json:"case"`
 	Failure   string          `json:"failure"`
+	// LogLevel: the library's package-level log level while the case ran (part of the generated input: results must not
+	// depend on it; the log functions themselves are replaced by no-ops). Empty = error.
+	LogLevel string `json:"log_level,omitempty"`
+}
+
+var logLevels = []neat.LoggerLevel{neat.LogLevelError, neat.LogLevelDebug, neat.LogLevelInfo, neat.LogLevelWarning, neat.LogLevelDebug}
+
+func setLogLevel(l string) {
+	if l == "" {
+		l = string(neat.LogLevelError)
+	}
+	neat.LogLevel = neat.LoggerLevel(l)
 }
 
 /* ------------------------------------------------------------------------------------------------
@@ -263,15 +275,20 @@ func runProp[C any](t *testing.T, property, sub string, quickChecks, thoroughChe
 
 	rapid.Check(t, func(rt *rapid.T) {
 		c := gen.Draw(rt, "case")
+		level := string(rapid.SampledFrom(logLevels).Draw(rt, "log level"))
+		setLogLevel(level)
 		if sideFile {
 			writeJSON(filepath.Join(dir, "current-"+base+".json"), &failure{Property: property, Sub: sub, Tier: tier(),
-				VerifSeed: verifSeed, RapidSeed: seed, Case: mustJSON(c), Failure: "process died while executing this case"})
+				VerifSeed: verifSeed, RapidSeed: seed, Case: mustJSON(c), Failure: "process died while executing this case", LogLevel: level})
 		}
 		rec := newRec()
 		err := timedCheck(check, c, rec, func(msg string) {
 			writeJSON(filepath.Join(dir, "fail-"+base+".json"), &failure{Property: property, Sub: sub, Tier: tier(), VerifSeed: verifSeed,
-				RapidSeed: seed, Case: mustJSON(c), Failure: msg})
+				RapidSeed: seed, Case: mustJSON(c), Failure: msg, LogLevel: level})
 		})
+		if level == string(neat.LogLevelDebug) {
+			rec.Class("log level debug")
+		}
 		if lastFail == nil {
 			// only cases of the search phase are counted, not the shrinker's re-executions
 			st.Evaluations++
@@ -296,7 +313,7 @@ func runProp[C any](t *testing.T, property, sub string, quickChecks, thoroughChe
 		}
 		if err != nil {
 			lastFail = &failure{Property: property, Sub: sub, Tier: tier(), VerifSeed: verifSeed, RapidSeed: seed,
-				Case: mustJSON(c), Failure: err.Error()}
+				Case: mustJSON(c), Failure: err.Error(), LogLevel: level}
 			rt.Fatalf("%s/%s violated: %v", property, sub, err)
 		}
 	})
@@ -350,6 +367,7 @@ func TestReplay(t *testing.T) {
 		t.Fatalf("no replayer for %s/%s", f.Property, f.Sub)
 	}
 	times := int(envInt("VERIF_REPLAY_TIMES", 1))
+	setLogLevel(f.LogLevel)
 	for i := 0; i < times; i++ {
 		if err := fn(f.Case); err != nil {
 			fmt.Printf("REPLAY-FAILS property=%s sub=%s: %v\n", f.Property, f.Sub, err)
@@ -402,6 +420,8 @@ func fuzzProp[C any](f *testing.F, property, sub string, gen *rapid.Generator[C]
 	}
 	f.Fuzz(rapid.MakeFuzz(func(rt *rapid.T) {
 		c := gen.Draw(rt, "case")
+		level := string(rapid.SampledFrom(logLevels).Draw(rt, "log level"))
+		setLogLevel(level)
 		rec := newRec()
 		err := safeCheck(check, c, rec)
 		st.Execs++
@@ -421,7 +441,7 @@ func fuzzProp[C any](f *testing.F, property, sub string, gen *rapid.Generator[C]
 		}
 		if err != nil {
 			writeJSON(filepath.Join(dir, fmt.Sprintf("fail-%s-%s-fuzz%d.json", property, sub, st.Pid)), &failure{Property: property, Sub: sub,
-				Tier: "thorough", VerifSeed: envInt("VERIF_SEED", 1), Case: mustJSON(c), Failure: err.Error()})
+				Tier: "thorough", VerifSeed: envInt("VERIF_SEED", 1), Case: mustJSON(c), Failure: err.Error(), LogLevel: level})
 			rt.Fatalf("%s/%s violated: %v", property, sub, err)
 		}
 	}))
